@@ -147,8 +147,8 @@ def run(prop, tier, seed, replay):
     from yaw.correlation.corrfunc import CorrFunc
     from yaw.redshifts import HistData, RedshiftData
 
-    ck = Check(prop, tier, seed, kernels=KERNELS + ["k_glue"], theorems=THEOREMS + ["Yaw.Glue.glue_flags"],
-               lean_modules=["YawVerif.Props.C04", "YawVerif.Props.Glue"], rule=RULE,
+    ck = Check(prop, tier, seed, kernels=KERNELS + ["k_glue", "k_ctors"], theorems=THEOREMS + ["Yaw.Glue.glue_flags", "Yaw.C17Ctor.corrfunc_algebra_flags"],
+               lean_modules=["YawVerif.Props.C04", "YawVerif.Props.Glue", "YawVerif.Props.C17Ctor"], rule=RULE,
                assumptions=["numpy elementwise +,-,*,/ and sqrt are correctly rounded",
                             "np.nansum skips NaN entries"])
     ck.translate()
